@@ -14,6 +14,8 @@ correspondence runs):
 * a write to an address `≥ depth` is dropped, a read from such an address returns 0
   (the address signal is `range(depth)`, so for a depth that is not a power of two such
   addresses are representable),
+* a transparent synchronous read port forwards same-address writes by address comparison
+  alone (`rdT`), which for addresses below `depth` is the row after the writes,
 * several write ports are applied in port order (only relevant outside the property's
   hypothesis "no two write ports address the same row").
 -/
@@ -59,6 +61,15 @@ def wrOpt (f : Nat → Wr → Nat) (m : Mem) : Option Wr → Mem
 /-- all write ports of one cycle, in port order -/
 def wrAll (f : Nat → Wr → Nat) (m : Mem) (ws : List (Option Wr)) : Mem :=
   ws.foldl (wrOpt f) m
+
+/-- what a synchronous read port that is transparent for the write ports latches: the row as it
+    is, with every same-address write of this cycle laid over it in port order (Amaranth compares
+    the addresses only, so for an address `≥ depth` the dropped write is still forwarded) -/
+def rdT (f : Nat → Wr → Nat) (m : Mem) (ws : List (Option Wr)) (a : Nat) : Nat :=
+  ws.foldl (fun v o =>
+    match o with
+    | some w => if w.addr = a then f v w else v
+    | none => v) (rd m a)
 
 /-- addresses used by the write calls of one cycle -/
 def wrAddrs (ws : List (Option Wr)) : List Nat :=
